@@ -192,6 +192,12 @@ def c08(ctx):
                          soil={"type": "SandyLoam"}, crop={"name": "Wheat", "planting": "10/15", "overrides": {}},
                          iwc=FC, irr={"method": 0}, off_season=False,
                          co2={"constant": False, "series": [[1978, 335.0], [1979, 337.0], [1980, 345.0], [1981, 345.0], [1982, 345.0], [1984, 352.0]]}))
+    # a constant water table within reach with a field-capacity start (the stored initial profile then carries the
+    # water-table adjustment) — three seasons
+    explicit.append(dict(id=8903, start="1979/10/15", end="1982/08/30", weather={"kind": "file", "name": "tunis_climate.txt"},
+                         soil={"type": "Loam"}, crop={"name": "Wheat", "planting": "10/15", "overrides": {}},
+                         iwc=FC, irr={"method": 0}, off_season=False,
+                         gw={"water_table": "Y", "method": "Constant", "dates": ["1979-10-15"], "values": [1.8]}))
     queue = list(explicit)
     while evals < n and tried < 6 * n:
         tried += 1
@@ -451,6 +457,29 @@ def c10(ctx):
                 viols.append(V("C10", "interleaving", sc, "interleaved stepping of two instances changes the result"))
     except Exception as e:  # noqa: BLE001
         viols.append(V("C10", "interleaving-raises", a, "interleaved stepping raises", error=(type(e).__name__, str(e)[:200])))
+    # (d) two models built from the SAME user objects: B built and run after A has run must give what B gives when
+    # built from freshly made objects (days before the first planting date are simulated; crops whose aeration /
+    # rooting values differ from the pre-season stand-in's)
+    for crop_name, wname, pl, st, en in (("Barley", "brussels_climate.txt", "03/20", "1980/01/01", "1981/10/30"),
+                                         ("PaddyRice", "hyderabad_climate.txt", "08/01", "2000/07/01", "2001/12/30")):
+        sc_s = dict(id=f"c10-shared-{crop_name}", start=st, end=en, weather={"kind": "file", "name": wname},
+                    soil={"type": "Clay"}, crop={"name": crop_name, "planting": pl, "overrides": {}}, irr={"method": 0},
+                    off_season=True)
+        try:
+            fresh_b = run_full(sc_s)
+            objs = S.build_objects(sc_s)
+            run_full(objects=objs)                 # model A
+            shared_b = run_full(objects=objs)      # model B from the same objects
+            evals += 1
+            if fresh_b.error or shared_b.error:
+                if bool(fresh_b.error) != bool(shared_b.error):
+                    viols.append(V("C10", "shared-objects-raises", sc_s, "a model built from objects another model used raises / stops raising",
+                                   fresh=fresh_b.error, shared=shared_b.error))
+            elif digest(fresh_b) != digest(shared_b):
+                viols.append(V("C10", "shared-objects", sc_s, "a model built from objects another model has used differs from one built from fresh objects",
+                               diff=first_diff(fresh_b, shared_b)))
+        except Exception:  # noqa: BLE001
+            pass
     return viols, dict(evaluations=evals, distinct_nontrivial=len(scs) * len(seeds), c10_hash_seeds=seeds,
                        c10_samples=[dict(scen=s["id"], crop=s["crop"]["name"]) for s in scs[:2]])
 
@@ -1172,6 +1201,34 @@ def c16_scenarios(seed, tier):
     return out
 
 
+def c16_shared_objects(tier):
+    """valid use that re-uses component objects (CO2, soil, crop, management) for a second model over another window:
+    the second run must complete too"""
+    out = []
+    pairs = [("Maize", "champion_climate.txt", "05/01", ("1982/05/01", "1983/04/30"), ("1985/05/01", "1987/04/30")),
+             ("Wheat", "tunis_climate.txt", "10/15", ("1980/10/15", "1981/08/30"), ("1984/09/01", "1986/08/30")),
+             ("MaizeGDD", "champion_climate.txt", "05/01", ("1990/05/01", "1990/12/30"), ("1994/04/01", "1996/12/30"))]
+    for crop, wname, pl, w1, w2 in pairs[: (2 if tier == "quick" else 3)]:
+        for co2 in (None, {"constant": False, "series": [[1975, 331.0], [1985, 346.0], [1995, 360.0], [2005, 379.0]]}):
+            sc1 = dict(id=f"c16-shared-{crop}-{'series' if co2 else 'default'}", start=w1[0], end=w1[1],
+                       weather={"kind": "file", "name": wname}, soil={"type": "SandyLoam"},
+                       crop={"name": crop, "planting": pl, "overrides": {}}, irr={"method": 1, "SMT": [60.0] * 4},
+                       co2=co2 or {"constant": False}, off_season=True)
+            try:
+                objs = S.build_objects(sc1)
+                r1 = run_full(objects=objs)
+                o2 = dict(objs, sim_start_time=w2[0], sim_end_time=w2[1])
+                r2 = run_full(objects=o2)
+                sc2 = dict(sc1, start=w2[0], end=w2[1])
+                if not r1.error and r2.error and not permitted_rejection(r2.error):
+                    out.append(V("C16", "shared-objects-second-window-raises-" + r2.error[0], sc2,
+                                 "a second model over another window, built from the objects a first model used, raises",
+                                 error=list(r2.error), first_window=list(w1)))
+            except Exception:  # noqa: BLE001
+                pass
+    return out
+
+
 def c16(ctx):
     seed, tier = ctx["seed"], ctx["tier"]
     scs = c16_scenarios(seed, tier)
@@ -1195,6 +1252,7 @@ def c16(ctx):
             key = r.pop("key")
             what = r.pop("what")
             viols.append(V("C16", key, sc, what, overrides=sc["crop"]["overrides"], **r))
+    viols += c16_shared_objects(tier)
     return viols, dict(evaluations=len(scs), distinct_nontrivial=ok, c16_completed_finite=ok, c16_permitted_rejections=rejected,
                        c16_crops=len([k for k in cover if k.startswith("crop:")]),
                        c16_soils=len([k for k in cover if k.startswith("soil:")]),
@@ -1378,6 +1436,24 @@ def c18_model_checks(sc, model, viols):
     zmax = float(model.crop.Zmax)
     if P["dzsum"][-1] < zmax + 0.1 - 1e-9:
         viols.append(V("C18", "profile-too-shallow", sc, "profile does not end below the maximum rooting depth", zsoil=float(P["dzsum"][-1]), zmax=zmax))
+    # custom soils: every compartment belongs to the layer the specification puts it in (the layer whose bottom is
+    # the first at or below the compartment's bottom; below the last layer: the last layer) and carries its values
+    spec = sc.get("soil", {}) if isinstance(sc, dict) else {}
+    same_grid = spec.get("dz") is not None and len(spec["dz"]) == n and np.allclose(P["dz"], np.array(spec["dz"], dtype=float), atol=1e-12)
+    if spec.get("type") == "custom" and spec.get("layers") and not spec.get("texture") and same_grid:
+        # (only on the grid the layers were assigned on: deepening thickens compartments afterwards and keeps their layer)
+        cum = np.cumsum([float(x[0]) for x in spec["layers"]])
+        for i in range(n):
+            j = int(np.argmax(cum >= P["dzsum"][i] - 1e-9)) if (cum >= P["dzsum"][i] - 1e-9).any() else len(cum) - 1
+            top_i = P["dzsum"][i] - P["dz"][i]
+            if j > 0 and top_i < cum[j - 1] - 1e-9:
+                continue        # a compartment straddling a layer boundary: which layer it gets is the builder's rule, not checked here
+            want = spec["layers"][j]
+            if int(lay[i]) != j + 1 or abs(P["th_wp"][i] - want[1]) > 1e-12 or abs(P["th_fc"][i] - want[2]) > 1e-12 \
+                    or abs(P["th_s"][i] - want[3]) > 1e-12 or abs(P["Ksat"][i] - want[4]) > 1e-9:
+                viols.append(V("C18", "compartment-in-wrong-layer", sc, "a compartment does not carry the layer the specification puts it in",
+                               comp=i, bottom=float(P["dzsum"][i]), layer=int(lay[i]), expected_layer=j + 1))
+                break
     # per-layer constancy of hydraulic properties
     for l in np.unique(lay):
         idx = lay == l
@@ -1449,6 +1525,14 @@ def c18(ctx):
     scs.append(dict(base, id="c18-short-texture", iwc=S.random_iwc(rng, 1),
                     soil={"type": "custom", "dz": [0.1] * 18, "texture": [[1.0, 40, 30, 2.0, 100]]}))
     scs.append(dict(base, id="c18-paddy-25", iwc=S.random_iwc(rng, 2), soil={"type": "Paddy", "dz": [0.1] * 25}))
+    # three layers whose inner boundaries fall on compartment bottoms
+    scs.append(dict(base, id="c18-three-layers", iwc={"wc_type": "Prop", "method": "Layer", "depth_layer": [1, 2, 3], "value": ["FC", "WP", "SAT"]},
+                    soil={"type": "custom", "dz": [0.1] * 12,
+                          "layers": [[0.5, 0.10, 0.22, 0.41, 1200, 100], [0.4, 0.23, 0.39, 0.5, 125, 100], [0.3, 0.32, 0.50, 0.54, 15, 100]]}))
+    scs.append(dict(base, id="c18-four-layers", iwc={"wc_type": "Pct", "method": "Layer", "depth_layer": [1, 2, 3, 4], "value": [80.0, 60.0, 40.0, 20.0]},
+                    soil={"type": "custom", "dz": [0.05] * 4 + [0.1] * 10,
+                          "layers": [[0.2, 0.06, 0.13, 0.36, 3000, 100], [0.3, 0.10, 0.22, 0.41, 1200, 100],
+                                     [0.3, 0.23, 0.39, 0.5, 125, 100], [0.4, 0.39, 0.54, 0.55, 2, 100]]}))
     scs.append(dict(base, id="c18-ulp-short", iwc=S.random_iwc(rng, 2),
                     soil={"type": "custom", "dz": [0.1] * 9, "layers": [[0.3, 0.10, 0.22, 0.41, 1200, 100], [0.6, 0.23, 0.39, 0.5, 125, 100]]}))
     for sc in scs:
